@@ -143,6 +143,19 @@ impl Prop for C16 {
             },
             None,
         );
+        if !thorough {
+            // quick: deviated forms under style edition 2024 and the layouts {L0, LALL} only; deviated
+            // configurations from the one-line layout only
+            units.retain(|u| {
+                let base_form = u.key.find('[').map_or(true, |i| {
+                    u.key[i + 1..u.key.find(']').unwrap_or(i + 1)].split(',').all(|c| c == "0" || c.is_empty())
+                });
+                if !u.cfg.kv.is_empty() {
+                    return u.key.ends_with("/L0");
+                }
+                base_form || u.key.ends_with("/L0") || u.key.ends_with("/LALL")
+            });
+        }
         // tab_spaces 1..8 x hard_tabs on base forms in the deep contexts
         let deep = gen::programs(0, 99, None);
         for p in &deep {
@@ -150,6 +163,7 @@ impl Prop for C16 {
                 continue;
             }
             for ts in [1usize, 2, 3, 5, 6, 7, 8] {
+
                 for ht in ["false", "true"] {
                     if !thorough && ht == "true" && ts != 1 {
                         continue;
@@ -226,11 +240,7 @@ impl Prop for C16 {
             }
             return;
         }
-        let mut stop = false;
         sweep(&u.text, &u.cfg, tier, |w, out, _same| {
-            if stop {
-                return;
-            }
             if first {
                 first = false;
                 parsable = out.status == Status::Ok;
@@ -245,10 +255,9 @@ impl Prop for C16 {
                 Status::Err(e) => sink.violation("C16", u, w, "error-result", e.clone()),
                 _ => {}
             }
-            // unparsable mutants take the same path at every width: run three widths only
-            if is_mutant && !parsable && w >= 22 {
-                stop = true;
-            }
+            // unparsable mutants never reach the formatter: the width is irrelevant, one run (the
+            // parser's error path costs ~20 ms per call)
+            !(is_mutant && !parsable)
         });
     }
 }
